@@ -11,6 +11,10 @@
 // Reader-held family (heldHistories): the ops "hold" / "release" keep read cursors (TSM file references) open
 // across a compaction, so that FileStore.replace commits through its in-use path (rename to *.tsm.tmp, tombstone
 // removal, purger); every syscall boundary of that path is a crash cut.
+//
+// Schedule family (engine: vsched, h/shim/vrt; the build overlay of this check compiles every tsm1 file that uses
+// sync against the modelled sync/atomic, see shim.json): concurrent snapshot / write clients of one engine, every
+// schedule within a deviation bound, process death (directory copy) at the quiescent point. See "SCHEDULE family".
 package c02
 
 import (
@@ -34,9 +38,11 @@ import (
 	"strings"
 	"sync"
 	"testing"
+	"testing/synctest"
 	"time"
 
 	"github.com/influxdata/influxdb/v2/models"
+	"github.com/influxdata/influxdb/v2/pkg/verifrt/vrt"
 	"github.com/influxdata/influxdb/v2/tsdb"
 	"github.com/influxdata/influxdb/v2/tsdb/engine/tsm1"
 	_ "github.com/influxdata/influxdb/v2/tsdb/index/tsi1"
@@ -1397,6 +1403,14 @@ func run(c *vlib.Ctx) {
 	scratch := vlib.Scratch("c02-")
 	defer os.RemoveAll(scratch)
 
+	// 0. the schedule family first, within its share of the budget (the crash-image families get the rest)
+	if os.Getenv("VERIF_C02_ONLY") != "crash" {
+		runSchedFamily(c, scratch, schedBudget(c))
+	}
+	if os.Getenv("VERIF_C02_ONLY") == "sched" {
+		return
+	}
+
 	tPhase := time.Now()
 	// 1. record (in parallel)
 	logs := make([]*crashfs.Log, len(hs))
@@ -1632,6 +1646,10 @@ func run(c *vlib.Ctx) {
 }
 
 func replay(c *vlib.Ctx, raw json.RawMessage) (bool, string) {
+	var sc SchedCase
+	if json.Unmarshal(raw, &sc) == nil && sc.Sched != nil {
+		return replaySched(c, sc)
+	}
 	var cs Case
 	if err := json.Unmarshal(raw, &cs); err != nil {
 		return false, "bad case: " + err.Error()
@@ -1709,6 +1727,806 @@ func dumpMain(name string) {
 	}
 }
 
+// ---------------------------------------------------------------------------------------------------------
+// SCHEDULE family (controlled scheduler vrt, see shim.json): concurrent clients of ONE engine, then a crash at the
+// quiescent point.
+//
+// The crash-image families above record sequential histories (one op at a time), so a commit sequence that is only
+// wrong under an interleaving - e.g. a cache snapshot that removes a WAL segment which was closed AFTER the snapshot
+// took its copy of the cache - is outside their space. Here every thread runs a short program over
+// {snap = Engine.WriteSnapshot, write = acknowledged write of one NEW point} on a real engine built with the modelled
+// sync/atomic (every tsm1 file that uses sync); every schedule within the deviation bound is executed, branching at
+// the Engine / Cache / WAL operations. When all threads have finished and the scheduler is drained the process
+// "dies": data and WAL directories are copied, the copy is inspected file by file and recovered by a new engine.
+
+// SchedScenario is one concurrent scenario.
+type SchedScenario struct {
+	Layout  string     `json:"layout"`                     // empty | cache | tsm+cache
+	SegSize int        `json:"wal_segment_size,omitempty"` // 0 = default (10 MiB: only snapshots close segments); 1 = every write after the first of a segment rolls it
+	Threads [][]string `json:"threads"`                    // per thread, in registration order (= default schedule order): its program
+}
+
+func (s SchedScenario) shape() string {
+	var ops []string
+	for _, p := range s.Threads {
+		ops = append(ops, strings.Join(p, ";"))
+	}
+	return strings.Join(ops, " || ")
+}
+
+// opsMultiset is the order-free part of a scenario (signature feature: order variants fall into one class).
+func (s SchedScenario) opsMultiset() string {
+	var ops []string
+	for _, p := range s.Threads {
+		ops = append(ops, strings.Join(p, ";"))
+	}
+	sort.Strings(ops)
+	return strings.Join(ops, "+")
+}
+
+func (s SchedScenario) seg() string {
+	if s.SegSize == 0 {
+		return "default"
+	}
+	return "tiny"
+}
+
+func (s SchedScenario) String() string {
+	return fmt.Sprintf("layout=%s wal-segments=%s: %s", s.Layout, s.seg(), s.shape())
+}
+
+// SchedCase is the replayable form of one schedule-family violation.
+type SchedCase struct {
+	Sched   *SchedScenario `json:"sched"`
+	Choices []int          `json:"schedule"`
+	Trace   []string       `json:"trace,omitempty"`
+}
+
+// schedFixture is the acknowledged history that precedes the concurrent part (one key per write: deterministic).
+func schedFixture(layout string) []Op {
+	switch layout {
+	case "empty":
+		return nil
+	case "cache":
+		return []Op{w(fv(sA, 1, 11)), w(fv(sA, 2, 12)), w(fv(sB, 1, 13))}
+	case "tsm+cache":
+		return []Op{w(fv(sA, 1, 11)), w(fv(sB, 1, 13)), snap, w(fv(sA, 2, 12))}
+	}
+	panic("unknown layout " + layout)
+}
+
+// schedPoint is the NEW point written by the n-th write op of a scenario (n = 1, 2, ...).
+func schedPoint(n int) Pt { return fv(sA, int64(100+n), 1000+n) }
+
+type schedVerdict struct{ sig, msg string }
+
+type schedRes struct {
+	harness  string
+	verdicts []schedVerdict
+	outcome  string
+}
+
+// schedBranch selects the points at which schedules branch: harness steps and the sync operations of Engine, Cache
+// (with its entries) and WAL. All other tsm1 locks are modelled too (a contended one disables the thread) but are
+// passed silently when free.
+func schedBranch(kind vrt.OpKind, label string) bool {
+	return kind == vrt.OpHook || strings.Contains(label, "(*Engine)") || strings.Contains(label, "(*Cache)") ||
+		strings.Contains(label, "(*entry)") || strings.Contains(label, "(*WAL)")
+}
+
+// imageFiles decodes what the copied directories hold WITHOUT the engine: the values of every key in every *.tsm file
+// and in every WAL segment (write entries; the family has no deletes). key -> timestamp -> set of value literals.
+func imageFiles(root string) (tsm, wal map[string]map[int64]map[string]bool, nTSM, nWAL int, err error) {
+	lit := func(v tsm1.Value) string {
+		switch x := v.Value().(type) {
+		case float64:
+			return "f:" + strconv.FormatFloat(x, 'g', -1, 64)
+		case int64:
+			return "i:" + strconv.FormatInt(x, 10)
+		case string:
+			return "s:" + x
+		}
+		return fmt.Sprintf("?:%v", v.Value())
+	}
+	put := func(m map[string]map[int64]map[string]bool, k string, v tsm1.Value) {
+		if m[k] == nil {
+			m[k] = map[int64]map[string]bool{}
+		}
+		if m[k][v.UnixNano()] == nil {
+			m[k][v.UnixNano()] = map[string]bool{}
+		}
+		m[k][v.UnixNano()][lit(v)] = true
+	}
+	tsm, wal = map[string]map[int64]map[string]bool{}, map[string]map[int64]map[string]bool{}
+	tf, _ := filepath.Glob(filepath.Join(root, "data", "*."+tsm1.TSMFileExtension))
+	sort.Strings(tf)
+	for _, p := range tf {
+		f, err := os.Open(p)
+		if err != nil {
+			return nil, nil, 0, 0, err
+		}
+		r, err := tsm1.NewTSMReader(f)
+		if err != nil {
+			f.Close()
+			continue // an unreadable TSM file holds nothing for this purpose
+		}
+		nTSM++
+		for i := 0; i < r.KeyCount(); i++ {
+			k, _ := r.KeyAt(i)
+			vs, err := r.ReadAll(k)
+			if err != nil {
+				continue
+			}
+			for _, v := range vs {
+				put(tsm, string(k), v)
+			}
+		}
+		r.Close()
+	}
+	wf, _ := filepath.Glob(filepath.Join(root, "wal", "*."+tsm1.WALFileExtension))
+	sort.Strings(wf)
+	for _, p := range wf {
+		f, err := os.Open(p)
+		if err != nil {
+			return nil, nil, 0, 0, err
+		}
+		nWAL++
+		r := tsm1.NewWALSegmentReader(f)
+		for r.Next() {
+			en, err := r.Read()
+			if err != nil {
+				break
+			}
+			if we, ok := en.(*tsm1.WriteWALEntry); ok {
+				ks := make([]string, 0, len(we.Values))
+				for k := range we.Values {
+					ks = append(ks, k)
+				}
+				sort.Strings(ks)
+				for _, k := range ks {
+					for _, v := range we.Values[k] {
+						put(wal, k, v)
+					}
+				}
+			}
+		}
+		r.Close()
+	}
+	return tsm, wal, nTSM, nWAL, nil
+}
+
+type schedPt struct {
+	pt    Pt
+	class string // fixture | concurrent-write
+	acked bool   // its write returned nil
+}
+
+// judgeSchedState compares one read with the statement: every acknowledged point is there with its value, a write
+// that returned an error may be there or not, nothing else is.
+func judgeSchedState(sc SchedScenario, when string, got State, pts []schedPt, add func(sig, msg string)) {
+	known := map[string]schedPt{}
+	for _, p := range pts {
+		known[p.pt.S+"#!~#"+p.pt.F+"\x00"+strconv.FormatInt(p.pt.T, 10)] = p
+	}
+	for _, p := range pts {
+		if !p.acked {
+			continue
+		}
+		if g := got[p.pt.S+"#!~#"+p.pt.F][strconv.FormatInt(p.pt.T, 10)]; g != p.pt.V {
+			add(vlib.JoinSig("sched", "lost-acked-write", when, "point="+p.class, "ops="+sc.opsMultiset(), "wal-segments="+sc.seg()),
+				fmt.Sprintf("%s: %s#!~#%s@%d (%s, its write returned success) reads %q, want %q", when, p.pt.S, p.pt.F, p.pt.T, p.class, g, p.pt.V))
+		}
+	}
+	ks := make([]string, 0, len(got))
+	for k := range got {
+		ks = append(ks, k)
+	}
+	sort.Strings(ks)
+	for _, k := range ks {
+		tss := make([]string, 0, len(got[k]))
+		for ts := range got[k] {
+			tss = append(tss, ts)
+		}
+		sort.Strings(tss)
+		for _, ts := range tss {
+			p, ok := known[k+"\x00"+ts]
+			if !ok || got[k][ts] != p.pt.V {
+				add(vlib.JoinSig("sched", "phantom-data", when, "ops="+sc.opsMultiset(), "wal-segments="+sc.seg()),
+					fmt.Sprintf("%s: %s@%s reads %q, which nobody wrote", when, k, ts, got[k][ts]))
+			}
+		}
+	}
+}
+
+func schedBody(x *vrt.Exec, sc SchedScenario, res *schedRes) {
+	add := func(sig, msg string) { res.verdicts = append(res.verdicts, schedVerdict{sig, msg}) }
+	dir := vlib.Scratch("c02s-")
+	defer os.RemoveAll(dir)
+	a, err := openAux(filepath.Join(dir, "aux"))
+	if err != nil {
+		res.harness = "aux: " + err.Error()
+		return
+	}
+	defer a.close()
+	root := filepath.Join(dir, "root")
+	e, err := openEngine(a, root, sc.SegSize)
+	if err != nil {
+		res.harness = "open: " + err.Error()
+		return
+	}
+	defer e.Close(false)
+	var pts []schedPt
+	for _, op := range schedFixture(sc.Layout) {
+		if err := doOp(e, op); err != nil {
+			res.harness = "fixture: " + err.Error()
+			return
+		}
+		for _, p := range op.Pts {
+			pts = append(pts, schedPt{pt: p, class: "fixture", acked: true})
+		}
+	}
+	type opRes struct {
+		kind string
+		pt   int // index into pts, for writes
+		done bool
+		err  error
+	}
+	results := make([][]opRes, len(sc.Threads))
+	nw := 0
+	for ti, prog := range sc.Threads {
+		results[ti] = make([]opRes, len(prog))
+		for oi, op := range prog {
+			results[ti][oi].kind = op
+			if op == "write" {
+				nw++
+				pts = append(pts, schedPt{pt: schedPoint(nw), class: "concurrent-write"})
+				results[ti][oi].pt = len(pts) - 1
+			}
+		}
+		ti, prog := ti, prog
+		x.Go(fmt.Sprintf("T%d(%s)", ti, strings.Join(prog, ";")), func() {
+			for oi, op := range prog {
+				if oi > 0 {
+					vrt.Hook("call:" + op)
+				}
+				r := &results[ti][oi]
+				switch op {
+				case "snap":
+					r.err = e.WriteSnapshot()
+				case "write":
+					r.err = shardWrite(e, []Pt{pts[r.pt].pt})
+				default:
+					r.err = fmt.Errorf("unknown op %q", op)
+				}
+				r.done = true
+			}
+		})
+	}
+	x.S.MaxSteps = 20000
+	x.Run()
+	dead, capHit, blocked := x.S.Deadlock, x.S.StepCap, strings.Join(x.S.Blocked, "; ")
+	if dead || capHit {
+		x.S.Abort()
+		if dead {
+			res.harness = "deadlock (not a C02 clause; the schedule was not judged): " + blocked
+		} else {
+			res.harness = "step cap"
+		}
+		return
+	}
+	x.S.Drain()
+	synctest.Wait() // quiescent: every goroutine of the engine has finished or is parked for good
+	var opsOut []string
+	for ti := range results {
+		for oi := range results[ti] {
+			r := &results[ti][oi]
+			o := "ok"
+			switch {
+			case !r.done:
+				res.harness = fmt.Sprintf("thread %d op %d did not finish", ti, oi)
+				return
+			case r.err == nil && r.kind == "write":
+				pts[r.pt].acked = true
+				o = "ack"
+			case r.err != nil && strings.Contains(r.err.Error(), "snapshot in progress"):
+				o = "in-progress"
+			case r.err != nil:
+				o = "error" // not acknowledged: the statement demands nothing of it
+			}
+			opsOut = append(opsOut, r.kind+":"+o)
+		}
+	}
+	sort.Strings(opsOut)
+
+	// live engine
+	live, err := readAll(e)
+	if err != nil {
+		add(vlib.JoinSig("sched", "read-error", "live-read", "ops="+sc.opsMultiset()), "reading the live engine: "+err.Error())
+	} else {
+		judgeSchedState(sc, "live-read", live, pts, add)
+	}
+
+	// process death at the quiescent point: data + WAL directories as they are on disk now
+	root2 := filepath.Join(dir, "root2")
+	if err := copyTree(root, root2); err != nil {
+		res.harness = "copy: " + err.Error()
+		return
+	}
+	tsmHas, walHas, nTSM, nWAL, err := imageFiles(root2)
+	if err != nil {
+		res.harness = "decoding the image: " + err.Error()
+		return
+	}
+	for _, p := range pts {
+		k, lit := p.pt.S+"#!~#"+p.pt.F, p.pt.V
+		if p.acked && !tsmHas[k][p.pt.T][lit] && !walHas[k][p.pt.T][lit] {
+			add(vlib.JoinSig("sched", "acked-point-in-no-tsm-file-and-no-wal-segment", "crash-image", "point="+p.class, "ops="+sc.opsMultiset(), "wal-segments="+sc.seg()),
+				fmt.Sprintf("crash image at the quiescent point (%d TSM files, %d WAL segments): %s@%d=%s (%s, its write returned success) is in no TSM file and in no WAL segment on disk (it exists only in the cache)", nTSM, nWAL, k, p.pt.T, lit, p.class))
+		}
+	}
+	recovered := "ok"
+	var stage string
+	panicked, desc := vlib.Guard(func() {
+		stage = "Engine.Open"
+		e2, err := openEngine(a, root2, sc.SegSize)
+		if err != nil {
+			recovered = "open-fails"
+			add(vlib.JoinSig("sched", "open-fails", "after-crash-reopen", "ops="+sc.opsMultiset()), "Engine.Open on the crash image: "+scrubDir(err.Error(), dir))
+			return
+		}
+		defer e2.Close(false)
+		stage = "read"
+		s1, err := readAll(e2)
+		if err != nil {
+			recovered = "read-error"
+			add(vlib.JoinSig("sched", "read-error", "after-crash-reopen", "ops="+sc.opsMultiset()), "reading the recovered engine: "+scrubDir(err.Error(), dir))
+			return
+		}
+		n0 := len(res.verdicts)
+		judgeSchedState(sc, "after-crash-reopen", s1, pts, add)
+		if len(res.verdicts) > n0 {
+			recovered = "wrong-state"
+		}
+		stage = "write"
+		if err := shardWrite(e2, extra(1)); err != nil {
+			recovered = "rejects-writes"
+			add(vlib.JoinSig("sched", "rejects-writes", "after-crash-reopen", "ops="+sc.opsMultiset()), "write after recovery: "+scrubDir(err.Error(), dir))
+			return
+		}
+		s2, err := readAll(e2)
+		if err != nil {
+			add(vlib.JoinSig("sched", "read-error", "after-crash-reopen", "ops="+sc.opsMultiset()), "reading after the post-recovery write: "+scrubDir(err.Error(), dir))
+			return
+		}
+		if d := hasAll(s2, extra(1)); d != "" {
+			recovered = "rejects-writes"
+			add(vlib.JoinSig("sched", "rejects-writes", "after-crash-reopen", "ops="+sc.opsMultiset()), d)
+		}
+	})
+	if panicked {
+		recovered = "panic"
+		add(vlib.JoinSig("sched", "open-fails", "after-crash-reopen", "panic", "ops="+sc.opsMultiset()), "panic during recovery ("+stage+"): "+scrubDir(desc, dir))
+	}
+	res.outcome = fmt.Sprintf("sched:%s image:tsm=%d,wal=%d recovery=%s", strings.Join(opsOut, ","), nTSM, nWAL, recovered)
+	x.Outcome = res.outcome
+}
+
+func scrubDir(s, dir string) string {
+	return strings.ReplaceAll(strings.ReplaceAll(s, dir+string(filepath.Separator), "<scratch>/"), dir, "<scratch>")
+}
+
+func runSched(t *testing.T, sc SchedScenario, prefix []int) (*vrt.Result, *schedRes) {
+	res := &schedRes{}
+	h := &vrt.Harness{Name: sc.String(), Filter: schedBranch, DeviationCost: true, Body: func(x *vrt.Exec) { schedBody(x, sc, res) }}
+	return vrt.RunOnce(t, h, prefix), res
+}
+
+// exploreSched runs every schedule of sc with <= bound deviations from the default schedule (DFS over choice
+// prefixes, every execution runs to completion). The tree is split over the shards at its first level: every shard
+// runs the root execution (visited by shard 0) and the subtrees of the root's alternatives are dealt round-robin (an
+// alternative at step i owns the deviations behind step i, so subtree sizes fall linearly: round-robin balances).
+func exploreSched(t *testing.T, sc SchedScenario, bound, shard, nshards int, stop func() bool, visit func(*vrt.Result, *schedRes)) vrt.Stats {
+	st := vrt.Stats{Bound: bound, Complete: true}
+	child := 0
+	var rec func(prefix []int, level int)
+	rec = func(prefix []int, level int) {
+		if stop() {
+			st.Complete = false
+			return
+		}
+		r, res := runSched(t, sc, prefix)
+		mine := level > 0 || shard == 0
+		if mine {
+			st.Executions++
+			st.Transitions += int64(len(r.Steps))
+			if len(r.Steps) > st.MaxDepth {
+				st.MaxDepth = len(r.Steps)
+			}
+			visit(r, res)
+		}
+		if r.Diverged != "" {
+			return
+		}
+		pre := 0
+		for i := 0; i < len(r.Steps); i++ {
+			sp := r.Steps[i]
+			if i >= len(prefix) {
+				if len(sp.Enabled) > 1 && mine {
+					st.Nodes++
+				}
+				for alt := 1; alt < len(sp.Enabled); alt++ {
+					if pre+sp.Costs[alt] > bound {
+						continue
+					}
+					if level == 0 {
+						child++
+						if child%nshards != shard {
+							continue
+						}
+					}
+					rec(append(append([]int{}, r.Choices[:i]...), alt), level+1)
+				}
+			}
+			if sp.Preempt {
+				pre++
+			}
+		}
+	}
+	rec(nil, 0)
+	return st
+}
+
+// schedScenarios is the scenario list with the deviation bound of each, simplest first. Threads: snap =
+// Engine.WriteSnapshot (the second one of a scenario is "an attempt": it rolls the WAL segment and then backs off with
+// ErrSnapshotInProgress, or runs through, depending on the schedule), write = acknowledged write of a new point.
+// Thread multisets: {snap, write}, {snap, snap}, {snap, write, snap} with default WAL segments (only a snapshot closes
+// a segment) and {snap, write, write} with 1-byte segments (the write after the first one of a segment rolls it);
+// thorough adds {snap, write} and {snap, write, snap} with 1-byte segments and {snap, write, write} with default
+// ones. Every multiset in every distinct registration order (the order is the default schedule, deviations are counted
+// against it). quick: layout cache at bound 1; thorough: tsm+cache and empty at bound 1, cache at bound 2.
+func schedScenarios(tier string) (scs []SchedScenario, bounds []int) {
+	perms := func(ops []string) [][]string {
+		seen := map[string]bool{}
+		var out [][]string
+		var rec func(cur []string, used []bool)
+		rec = func(cur []string, used []bool) {
+			if len(cur) == len(ops) {
+				if k := strings.Join(cur, ","); !seen[k] {
+					seen[k] = true
+					out = append(out, append([]string{}, cur...))
+				}
+				return
+			}
+			for i := range ops {
+				if !used[i] {
+					used[i] = true
+					rec(append(cur, ops[i]), used)
+					used[i] = false
+				}
+			}
+		}
+		rec(nil, make([]bool, len(ops)))
+		return out
+	}
+	type fam struct {
+		ops []string
+		seg int
+	}
+	fams := []fam{
+		{[]string{"snap", "write"}, 0},
+		{[]string{"snap", "snap"}, 0},
+		{[]string{"snap", "write", "snap"}, 0},
+		{[]string{"snap", "write", "write"}, 1},
+	}
+	type pass struct {
+		layout string
+		bound  int
+	}
+	passes := []pass{{"cache", 1}}
+	if tier == "thorough" {
+		fams = append(fams, fam{[]string{"snap", "write"}, 1}, fam{[]string{"snap", "write", "write"}, 0}, fam{[]string{"snap", "write", "snap"}, 1})
+		passes = []pass{{"tsm+cache", 1}, {"empty", 1}, {"cache", 2}} // the bound-2 tree contains the bound-1 tree
+	}
+	for _, ps := range passes {
+		for _, f := range fams {
+			for _, order := range perms(f.ops) {
+				sc := SchedScenario{Layout: ps.layout, SegSize: f.seg}
+				for _, op := range order {
+					sc.Threads = append(sc.Threads, []string{op})
+				}
+				scs = append(scs, sc)
+				bounds = append(bounds, ps.bound)
+			}
+		}
+	}
+	return
+}
+
+// schedOut is what one schedule-family subprocess reports.
+type schedOut struct {
+	Evals, Nontrivial, Nodes, Transitions, Traces int64
+	Outcomes                                      map[string]int64
+	Extra                                         map[string]int64
+	VioCount                                      map[string]int64
+	VioCase                                       map[string]SchedCase
+	VioSummary                                    map[string]string
+	Samples                                       []map[string]any
+	Caps                                          []string
+	HarnessErrs                                   []string
+}
+
+type schedJob struct {
+	Tier    string  `json:"tier"`
+	Shard   int     `json:"shard"`
+	NShards int     `json:"nshards"`
+	BudgetS float64 `json:"budget_s"`
+	Out     string  `json:"out"`
+}
+
+func traceOf(r *vrt.Result) []string {
+	var tr []string
+	for _, s := range r.Steps {
+		name := "?"
+		if s.Thread < len(r.Names) {
+			name = r.Names[s.Thread]
+		}
+		mark := ""
+		if s.Preempt {
+			mark = "  <== deviation"
+		}
+		tr = append(tr, fmt.Sprintf("%s %s%s", name, s.Label, mark))
+	}
+	return tr
+}
+
+// schedWorker explores shard job.Shard of every scenario (runs in its own process with GOMAXPROCS=1).
+func schedWorker(t *testing.T, job schedJob) *schedOut {
+	out := &schedOut{Outcomes: map[string]int64{}, Extra: map[string]int64{}, VioCount: map[string]int64{}, VioCase: map[string]SchedCase{}, VioSummary: map[string]string{}}
+	deadline := time.Now().Add(time.Duration(job.BudgetS * float64(time.Second)))
+	stop := func() bool { return time.Now().After(deadline) }
+	scs, bounds := schedScenarios(job.Tier)
+	for si, sc := range scs {
+		if v := os.Getenv("VERIF_C02_SCHED_ONLY"); v != "" && v != strconv.Itoa(si) { // debugging aid
+			continue
+		}
+		if v, err := strconv.Atoi(os.Getenv("VERIF_C02_SCHED_BOUND")); err == nil { // debugging aid
+			bounds[si] = v
+		}
+		if stop() {
+			out.Caps = append(out.Caps, "schedule family: wall budget reached before every scenario was explored (scenarios are ordered simplest first)")
+			break
+		}
+		sc := sc
+		st := exploreSched(t, sc, bounds[si], job.Shard, job.NShards, stop, func(r *vrt.Result, res *schedRes) {
+			out.Evals++
+			if r.Preempts > 0 {
+				out.Nontrivial++
+			}
+			herr := func(m string) {
+				out.Extra["sched_executions_not_judged"]++
+				if len(out.HarnessErrs) < 5 {
+					out.HarnessErrs = append(out.HarnessErrs, fmt.Sprintf("schedule family, %s, schedule %v: %s", sc, r.Choices, m))
+				}
+			}
+			if r.Diverged != "" {
+				herr(r.Diverged)
+				return
+			}
+			if res.harness != "" {
+				herr(res.harness)
+				return
+			}
+			out.Outcomes[res.outcome]++
+			out.Extra[fmt.Sprintf("sched_executions_with_%d_deviations", r.Preempts)]++
+			for _, v := range res.verdicts {
+				out.VioCount[v.sig]++
+				if old, ok := out.VioCase[v.sig]; !ok || len(r.Choices) < len(old.Choices) {
+					scc := sc
+					out.VioCase[v.sig] = SchedCase{Sched: &scc, Choices: r.Choices, Trace: traceOf(r)}
+					out.VioSummary[v.sig] = fmt.Sprintf("schedule family, %s, %d deviation(s) from the default schedule: %s", sc, r.Preempts, v.msg)
+				}
+			}
+			if job.Shard == 0 && len(out.Samples) < 2 && r.Preempts == bounds[si] && len(res.verdicts) == 0 { // leave sample slots to the crash families
+				out.Samples = append(out.Samples, map[string]any{"family": "schedule", "scenario": sc.String(), "schedule": r.Choices, "deviations": r.Preempts, "outcome": res.outcome})
+			}
+		})
+		if !st.Complete {
+			out.Caps = append(out.Caps, "schedule family: wall budget reached inside a scenario (its remaining schedules were not run)")
+		}
+		if os.Getenv("VERIF_C02_SCHED_ONLY") != "" {
+			fmt.Fprintf(os.Stderr, "scenario %d %s bound %d: %+v\n", si, sc, bounds[si], st)
+		}
+		out.Nodes += st.Nodes
+		out.Transitions += st.Transitions
+		out.Traces += st.Executions
+		if job.Shard == 0 {
+			out.Extra["sched_scenarios"]++
+		}
+	}
+	return out
+}
+
+func schedMain(t *testing.T, jobPath string) {
+	b, err := os.ReadFile(jobPath)
+	if err != nil {
+		fmt.Fprintln(os.Stderr, "c02 sched:", err)
+		os.Exit(2)
+	}
+	var job schedJob
+	if err := json.Unmarshal(b, &job); err != nil {
+		fmt.Fprintln(os.Stderr, "c02 sched:", err)
+		os.Exit(2)
+	}
+	runtime.GOMAXPROCS(1)
+	out := schedWorker(t, job)
+	ob, _ := json.Marshal(out)
+	if err := os.WriteFile(job.Out, ob, 0o666); err != nil {
+		fmt.Fprintln(os.Stderr, "c02 sched:", err)
+		os.Exit(2)
+	}
+}
+
+// runSchedFamily runs the schedule family in nproc subprocesses (one shard each) within budget and merges their
+// reports into c.
+func runSchedFamily(c *vlib.Ctx, scratch string, budget time.Duration) {
+	nproc := runtime.NumCPU()
+	if nproc > 16 {
+		nproc = 16
+	}
+	// on an oversubscribed machine more processes only add contention (measured: the same 1035 executions cost 33 s
+	// CPU in 1 process and 218 s in 16 at load average 150 on 16 cores); this changes the parallelism, not the space
+	if b, err := os.ReadFile("/proc/loadavg"); err == nil {
+		if f := strings.Fields(string(b)); len(f) > 0 {
+			if load, err := strconv.ParseFloat(f[0], 64); err == nil {
+				switch {
+				case load > 2*float64(runtime.NumCPU()) && nproc > 2:
+					nproc = 2
+				case load > float64(runtime.NumCPU()) && nproc > 4:
+					nproc = 4
+				}
+			}
+		}
+	}
+	if v := os.Getenv("VERIF_C02_SCHED_PROCS"); v != "" {
+		if n, err := strconv.Atoi(v); err == nil && n > 0 {
+			nproc = n
+		}
+	}
+	t0 := time.Now()
+	outs := make([]*schedOut, nproc)
+	errs := make([]string, nproc)
+	var wg sync.WaitGroup
+	for i := 0; i < nproc; i++ {
+		wg.Add(1)
+		go func(i int) {
+			defer wg.Done()
+			job := schedJob{Tier: c.Tier, Shard: i, NShards: nproc, BudgetS: budget.Seconds(), Out: filepath.Join(scratch, fmt.Sprintf("sched-%d.json", i))}
+			jb, _ := json.Marshal(job)
+			jp := filepath.Join(scratch, fmt.Sprintf("sched-job-%d.json", i))
+			if err := os.WriteFile(jp, jb, 0o666); err != nil {
+				errs[i] = err.Error()
+				return
+			}
+			cmd := exec.Command(os.Args[0], "-test.run", "^TestCheck$", "-test.timeout", "0")
+			cmd.Env = selfEnv("VERIF_C02_SCHED="+jp, "GOMAXPROCS=1", "VERIF_SCRATCH="+scratch)
+			var stderr strings.Builder
+			cmd.Stdout, cmd.Stderr = &stderr, &stderr
+			if err := cmd.Start(); err != nil {
+				errs[i] = err.Error()
+				return
+			}
+			done := make(chan error, 1)
+			go func() { done <- cmd.Wait() }()
+			var werr error
+			select {
+			case werr = <-done:
+			case <-time.After(3*budget + 5*time.Minute):
+				cmd.Process.Kill()
+				<-done
+				werr = fmt.Errorf("killed after 3x budget + 5m")
+			}
+			ob, rerr := os.ReadFile(job.Out)
+			if rerr != nil {
+				tail := stderr.String()
+				if len(tail) > 2000 {
+					tail = tail[len(tail)-2000:]
+				}
+				errs[i] = fmt.Sprintf("schedule-family subprocess %d produced no report (%v): %s", i, werr, tail)
+				return
+			}
+			var o schedOut
+			if err := json.Unmarshal(ob, &o); err != nil {
+				errs[i] = fmt.Sprintf("schedule-family subprocess %d: unreadable report: %v", i, err)
+				return
+			}
+			outs[i] = &o
+		}(i)
+	}
+	wg.Wait()
+	for _, e := range errs {
+		if e != "" {
+			c.HarnessError(e)
+		}
+	}
+	// merge; per class keep the shortest schedule
+	best := map[string]SchedCase{}
+	bestSum := map[string]string{}
+	count := map[string]int64{}
+	for _, o := range outs {
+		if o == nil {
+			continue
+		}
+		c.Eval(o.Evals)
+		c.NontrivialN(o.Nontrivial)
+		c.StateN(o.Nodes)
+		c.Transition(o.Transitions)
+		c.Trace(o.Traces)
+		c.Extra("sched_executions", o.Evals)
+		for k, v := range o.Outcomes {
+			c.OutcomeN(k, v)
+		}
+		for k, v := range o.Extra {
+			c.Extra(k, v)
+		}
+		for _, m := range o.Caps {
+			c.Cap(m)
+		}
+		for _, m := range o.HarnessErrs {
+			c.HarnessError(m)
+		}
+		for _, s := range o.Samples {
+			c.Sample(s)
+		}
+		for sig, n := range o.VioCount {
+			count[sig] += n
+			if old, ok := best[sig]; !ok || len(o.VioCase[sig].Choices) < len(old.Choices) {
+				best[sig], bestSum[sig] = o.VioCase[sig], o.VioSummary[sig]
+			}
+		}
+	}
+	sigs := make([]string, 0, len(best))
+	for s := range best {
+		sigs = append(sigs, s)
+	}
+	sort.Strings(sigs)
+	for _, s := range sigs {
+		for i := int64(0); i < count[s]; i++ {
+			c.Violation(s, bestSum[s], best[s])
+		}
+	}
+	c.Logf("phase schedule family: %v (%d subprocesses)", time.Since(t0).Round(time.Millisecond), nproc)
+}
+
+// schedBudget is the schedule family's share of the wall budget.
+func schedBudget(c *vlib.Ctx) time.Duration {
+	if c.Thorough() {
+		return 240 * time.Second
+	}
+	return 25 * time.Second
+}
+
+func replaySched(c *vlib.Ctx, cs SchedCase) (bool, string) {
+	// adopted goroutines are ordered by goroutine id, which follows creation order only with one P
+	defer runtime.GOMAXPROCS(runtime.GOMAXPROCS(1))
+	r, res := runSched(c.T, *cs.Sched, cs.Choices)
+	if r.Diverged != "" {
+		return false, "diverged: " + r.Diverged
+	}
+	if res.harness != "" {
+		return false, "harness: " + res.harness
+	}
+	var v []string
+	for _, x := range res.verdicts {
+		v = append(v, x.sig+": "+x.msg)
+	}
+	if os.Getenv("VERIF_C02_TRACE") != "" { // debugging aid
+		for i, l := range traceOf(r) {
+			fmt.Fprintf(os.Stderr, "%3d %v %s\n", i, r.Steps[i].Enabled, l)
+		}
+	}
+	return len(v) > 0, fmt.Sprintf("schedule family, %s, schedule %v: %s outcome=%s", cs.Sched, cs.Choices, strings.Join(v, " ;; "), res.outcome)
+}
+
 func TestCheck(t *testing.T) {
 	if js := os.Getenv("VERIF_CRASH_WRITER"); js != "" {
 		os.Exit(writerMain(js))
@@ -1720,17 +2538,22 @@ func TestCheck(t *testing.T) {
 		dumpMain(n)
 		return
 	}
+	if jp := os.Getenv("VERIF_C02_SCHED"); jp != "" {
+		schedMain(t, jp)
+		return
+	}
 	vlib.Main(t, &vlib.Check{
 		ID: "C02", Level: "fault_enumeration",
-		Rule: "crash images of recorded real histories on a tsm1.Engine (quick: 3 histories wal-only / snapshot-delete / compact-level; thorough: 14 incl. full compaction, WAL segment roll with 60-byte segments, tombstone rewrite, delete over two TSM files, field-set changes, Close(flush); both tiers: the 12 reader-held histories = {full compaction of 2 files, level compaction of the first 2 of 3 files} x {acknowledged range delete, acknowledged whole-series delete leaving a tombstone file next to TSM file 1} x {read cursors (Engine.KeyCursor, kept open = TSM file references held) on the tombstoned file 1 only, on the tombstone-free file 2 only, on both} as [write, snapshot, delete, write, snapshot, (write, snapshot,) hold, compaction, release]: FileStore.replace then takes its in-use path (rename old file to .tsm.tmp, remove its tombstone file, purger unlinks the .tsm.tmp once the cursors are closed) for the held files and its ordinary path for the others; of these histories only the images cut after the hold op began are recovered (the ops before it build the fixture), quick: prefix images P only = every syscall boundary of the compaction commit and of the purge, thorough: P, T and U); per history every prefix of the syscall-level event list (P), every torn length 1..n-1 of the write in flight (T; all lengths, writes > 4096 bytes would be subsampled and counted), and for *.wal/*.tsm/*.tombstone/*.tmp files the images with un-fsynced data dropped or its last write torn (U); directory operations in program order; images deduplicated by (content, acknowledged ops, op in flight); one evaluation = one (image, acknowledgement context) recovered by a fresh process with Engine.Open+LoadMetadataIndex, read over all keys and the full time range through CreateCursorIterator, written once more, copied without closing, reopened, read and written again; oracle = map of acknowledged ops applied in order, the one op in flight may be applied per point or not; non-trivial = images whose recovered state is neither empty nor the history's final state; reader-held histories: images cut inside the compaction or the release op",
+		Rule: "crash images of recorded real histories on a tsm1.Engine (quick: 3 histories wal-only / snapshot-delete / compact-level; thorough: 14 incl. full compaction, WAL segment roll with 60-byte segments, tombstone rewrite, delete over two TSM files, field-set changes, Close(flush); both tiers: the 12 reader-held histories = {full compaction of 2 files, level compaction of the first 2 of 3 files} x {acknowledged range delete, acknowledged whole-series delete leaving a tombstone file next to TSM file 1} x {read cursors (Engine.KeyCursor, kept open = TSM file references held) on the tombstoned file 1 only, on the tombstone-free file 2 only, on both} as [write, snapshot, delete, write, snapshot, (write, snapshot,) hold, compaction, release]: FileStore.replace then takes its in-use path (rename old file to .tsm.tmp, remove its tombstone file, purger unlinks the .tsm.tmp once the cursors are closed) for the held files and its ordinary path for the others; of these histories only the images cut after the hold op began are recovered (the ops before it build the fixture), quick: prefix images P only = every syscall boundary of the compaction commit and of the purge, thorough: P, T and U); per history every prefix of the syscall-level event list (P), every torn length 1..n-1 of the write in flight (T; all lengths, writes > 4096 bytes would be subsampled and counted), and for *.wal/*.tsm/*.tombstone/*.tmp files the images with un-fsynced data dropped or its last write torn (U); directory operations in program order; images deduplicated by (content, acknowledged ops, op in flight); one evaluation = one (image, acknowledgement context) recovered by a fresh process with Engine.Open+LoadMetadataIndex, read over all keys and the full time range through CreateCursorIterator, written once more, copied without closing, reopened, read and written again; oracle = map of acknowledged ops applied in order, the one op in flight may be applied per point or not; non-trivial = images whose recovered state is neither empty nor the history's final state; reader-held histories: images cut inside the compaction or the release op. SCHEDULE family (signatures sched/..., run first in subprocesses with GOMAXPROCS=1, one shard of every scenario's schedule tree each): concurrent clients of ONE real engine built with the modelled sync/atomic (every tsm1 source file that uses sync, see shim.json), threads = single ops over {snap = Engine.WriteSnapshot (a second one is an attempt: it closes the current WAL segment under the engine lock and then backs off with ErrSnapshotInProgress, or runs through, depending on the schedule), write = write of ONE new point of series cpu,host=A done as in the histories}; thread multisets {snap,write}, {snap,snap}, {snap,write,snap} with default WAL segments and {snap,write,write} with 1-byte WAL segments (every write after the first of a segment rolls it; thorough adds {snap,write}, {snap,write,snap} with 1-byte and {snap,write,write} with default segments), each in every distinct registration order (= default schedule); fixture layouts: cache (3 acknowledged points of 2 series in cache+WAL) [quick], tsm+cache and empty [thorough]; EVERY schedule with <= B deviations from the default schedule (quick: B=1 on layout cache; thorough: B=2 on layout cache, B=1 on tsm+cache and empty), branching at the sync/atomic operations of Engine, Cache, entry and WAL (incl. the WAL fsync goroutine) and at harness steps; after all threads finished and the scheduler is drained (quiescent) the process 'dies': data and WAL directories are copied while the engine is still open; oracle per execution: (a) the live engine returns every acknowledged point (fixture points and every write that returned nil) with its value and nothing nobody wrote, (b) in the copied image every acknowledged point is in some *.tsm file (tsm1.NewTSMReader) or in some WAL segment (tsm1.NewWALSegmentReader), (c) a NEW engine opened on the copy (Engine.Open + LoadMetadataIndex: WAL replay) returns the same, accepts one more write and returns it; a write that returned an error may be present or not; one evaluation = one executed schedule, states = decision nodes, transitions = scheduling steps; non-trivial = executions with >= 1 deviation",
 		Assumptions: []string{
 			"ordered-metadata crash model: directory operations persist in program order (un-fsynced renames/unlinks are not dropped); file data of sync-class files may be lost back to the last fsync (U images)",
 			"the series file and the tsi1 index live outside the crash image (their crash clauses are C13/C14); reads go through the engine's cursor iterator, which does not consult them",
 			"event order between concurrent threads of the writer is syscall completion order",
 			"reader-held histories: a reader is a tsm1.KeyCursor obtained from Engine.KeyCursor (what every query cursor holds underneath) that stays open across the compaction; the writer verifies the intended in-use pattern of the TSM files right after the hold op; the release op is complete when the purger has unlinked the replaced files",
 			"writes are performed as tsdb.Shard.WritePoints does (series creation, ValidateAndCreateFields, MeasurementFieldSet.Save, Engine.WritePoints) using exported API, not through a tsdb.Shard object",
+			"schedule family: sequentially consistent interleavings at the granularity of the mutex/atomic operations of Engine, Cache, entry and WAL (all other tsm1 locks are modelled and can disable a thread but are passed without branching when free; goroutines of the tsi1 index and the series file run unscheduled between those points); the crash is taken only at the quiescent point after all threads returned (crash points inside the commit sequences are the crash-image families' subject); deletes and compactions are not among the concurrent ops; a deadlock or step cap would be reported as a harness error, not as a C02 violation",
 		},
-		Workers: 1, QuickBudgetS: 75, ThoroughBudgetS: 840,
+		Workers: 1, QuickBudgetS: 100, ThoroughBudgetS: 1080,
 		Run:    run,
 		Replay: replay,
 	})
